@@ -599,6 +599,10 @@ MATRIX_ROUTINES = [
     ("lobpcg", {"max_iters": 2}, True),
     ("adanys", {"rank": 2, "bounds": [0.1, 0.5, 2.0]}, False), ("select_rank", {"rank_init": 1, "rank_max": 2, "tol": 1.0}, False),
     ("randomized_svd", {"rank": 2}, False),
+    # degenerate parameters
+    ("hutch", {"tol": 5.0, "max_iters": 0, "k": 0}, True), ("hutch", {"tol": 0.0011, "max_iters": 1, "k": -1, "pbar": True}, True),
+    ("lanczos", {"max_iters": 1}, True), ("arnoldi", {"max_iters": 1}, True), ("power_iteration", {"max_iter": 1, "tol": 2.0}, True),
+    ("nystrom", {"rank": 4}, True), ("randomized_svd", {"rank": 4}, False), ("lobpcg", {"max_iters": 1}, True),
 ]
 
 
